@@ -567,6 +567,51 @@ func (g *FuncGen) evalCall(n *Node, env *Env) (Val, error) {
 			return Val{parts[0], tBool}, nil
 		}
 		return Val{"(and " + strings.Join(parts, " ") + ")", tBool}, nil
+	case "concat", "contains", "hasprefix", "hassuffix", "indexof", "toint", "fromint", "isdigits", "substr", "inre", "replaceall":
+		if !g.w.useStrings {
+			return Val{}, fmt.Errorf("%s needs the string theory (add `strings` to the contract)", n.Name)
+		}
+		if n.Name == "inre" {
+			// inre(s, "<SMT-LIB regular expression>")
+			if len(n.Kids) != 2 || n.Kids[1].Kind != "str" {
+				return Val{}, fmt.Errorf("inre(s, \"<smt regex>\")")
+			}
+			x, err := g.eval(n.Kids[0], env)
+			if err != nil {
+				return Val{}, err
+			}
+			return Val{fmt.Sprintf("(str.in_re %s %s)", x.Term, n.Kids[1].Name), tBool}, nil
+		}
+		a, err := args()
+		if err != nil {
+			return Val{}, err
+		}
+		need := map[string]int{"concat": 2, "contains": 2, "hasprefix": 2, "hassuffix": 2, "indexof": 2, "toint": 1, "fromint": 1, "isdigits": 1, "substr": 3, "replaceall": 3}[n.Name]
+		if len(a) != need {
+			return Val{}, fmt.Errorf("%s takes %d arguments", n.Name, need)
+		}
+		switch n.Name {
+		case "concat":
+			return Val{fmt.Sprintf("(str.++ %s %s)", a[0].Term, a[1].Term), tStr}, nil
+		case "contains":
+			return Val{fmt.Sprintf("(str.contains %s %s)", a[0].Term, a[1].Term), tBool}, nil
+		case "hasprefix":
+			return Val{fmt.Sprintf("(str.prefixof %s %s)", a[1].Term, a[0].Term), tBool}, nil
+		case "hassuffix":
+			return Val{fmt.Sprintf("(str.suffixof %s %s)", a[1].Term, a[0].Term), tBool}, nil
+		case "indexof":
+			return Val{fmt.Sprintf("(str.indexof %s %s 0)", a[0].Term, a[1].Term), tInt}, nil
+		case "toint":
+			return Val{fmt.Sprintf("(str.to_int %s)", a[0].Term), tInt}, nil
+		case "fromint":
+			return Val{fmt.Sprintf("(str.from_int %s)", a[0].Term), tStr}, nil
+		case "isdigits":
+			return Val{fmt.Sprintf("(str.in_re %s (re.+ (re.range \"0\" \"9\")))", a[0].Term), tBool}, nil
+		case "substr": // substr(s, lo, hi) = s[lo:hi]
+			return Val{fmt.Sprintf("(str.substr %s %s (- %s %s))", a[0].Term, a[1].Term, a[2].Term, a[1].Term), tStr}, nil
+		case "replaceall":
+			return Val{fmt.Sprintf("(str.replace_all %s %s %s)", a[0].Term, a[1].Term, a[2].Term), tStr}, nil
+		}
 	case "unboxed": // unboxed(ifaceValue, Type): the payload of an interface value as a T
 		if len(n.Kids) != 2 {
 			return Val{}, fmt.Errorf("unboxed takes two arguments")
